@@ -19,7 +19,10 @@ BIN = {"add": ("Qcplus", operator.add, operator.add), "sub": ("Qcminus", operato
        "mul": ("Qcmult", operator.mul, operator.mul),
        "lt": ("(fun x y => ofb (negb (Vleb y x)))", lambda a, b: a.lt(b), lambda x, y: Fraction(int(x < y))),
        "ge": ("(fun x y => ofb (Vleb y x))", lambda a, b: a.ge(b), lambda x, y: Fraction(int(x >= y))),
-       "eq": ("(fun x y => ofb (Veqb x y))", lambda a, b: a.eq(b), lambda x, y: Fraction(int(x == y)))}
+       "eq": ("(fun x y => ofb (Veqb x y))", lambda a, b: a.eq(b), lambda x, y: Fraction(int(x == y))),
+       "ne": ("(fun x y => ofb (negb (Veqb x y)))", lambda a, b: a.ne(b), lambda x, y: Fraction(int(x != y))),
+       "le": ("(fun x y => ofb (Vleb x y))", lambda a, b: a.le(b), lambda x, y: Fraction(int(x <= y))),
+       "gt": ("(fun x y => ofb (negb (Vleb x y)))", lambda a, b: a.gt(b), lambda x, y: Fraction(int(x > y)))}
 UN = {"neg": ("Qcopp", operator.neg, operator.neg), "abs": ("Vabs", abs, abs),
       "inv": ("(fun x => Qcminus (Qcopp x) (qc 1 1))", operator.invert, lambda x: -x - 1),
       "is_even": ("(fun x => ofb (p_even x))", lambda a: a.is_even(), lambda x: Fraction(int(x % 2 == 0)))}
@@ -403,7 +406,8 @@ def gen_tree(rng, depth):
         which = rng.choice([[{"i": 0}], [{"i": -1}], [{"s": [None, 1, None]}], [{"s": [-2, None, None]}],
                             [{"s": [None, None, -1]}], [{"i": 0}, {"i": 0}], [{"s": [1, None, None]}], [{"i": 1}], [{"i": -1}, {"i": 0}],
                             [{"i": -1}, {"i": -1}, {"i": -1}], [{"i": 0}, {"i": 1}, {"i": 0}, {"i": 1}], [{"i": 0}, {"i": 0}, {"i": 0}],
-                            [{"s": [None, None, None]}, {"i": 0}]])
+                            [{"s": [None, None, None]}, {"i": 0}], [{"i": -2}], [{"i": -1}, {"i": -2}], [{"i": -2}, {"i": -1}],
+                            [{"i": -3}, {"i": -2}], [{"i": 1}, {"i": 0}], [{"s": [None, None, -1]}, {"i": -1}], [{"s": [-2, None, None]}, {"i": -2}]])
         return ["select", which, [sub() for _ in range(rng.randint(1, 2))]]
     if k == "filter":
         return ["filter", rng.choice(list(PRED)), [sub() for _ in range(rng.randint(1, 2))]]
